@@ -623,7 +623,13 @@ def seed_selftest(pid, repo):
     base = os.path.join(WORK, 'seedtest', pid)
     copy = os.path.join(base, 'repo')
     try:
-        for d in sorted(glob.glob(os.path.join(ROOT, 'seeded', pid + '_*'))):
+        dirs = sorted(glob.glob(os.path.join(ROOT, 'seeded', pid + '_*')))
+        # at most VERIF_SELFTEST_MAX (default 3) seeds per run, rotating with VERIF_SEED so that all get their turn
+        kmax = int(os.environ.get('VERIF_SELFTEST_MAX', '3') or 3)
+        if len(dirs) > kmax:
+            st = int(os.environ.get('VERIF_SEED', '0') or 0) % len(dirs)
+            dirs = (dirs + dirs)[st:st + kmax]
+        for d in dirs:
             patch = os.path.join(d, 'patch.diff')
             if not os.path.exists(patch):
                 continue
